@@ -95,6 +95,8 @@ pub struct Profile {
     pub len: (usize, usize),
     pub validators: Vec<Validator>,
     pub periodic: bool,
+    /// share of cases (percent) with a periodic cleanup even if `periodic` is false
+    pub periodic_pct: u32,
     pub metrics: Option<bool>,
     pub buffer_sizes: Vec<usize>,
     pub buffer_items: Vec<usize>,
@@ -123,6 +125,7 @@ impl Default for Profile {
             len: (5, 60),
             validators: vec![Validator::Always],
             periodic: false,
+            periodic_pct: 0,
             metrics: None,
             buffer_sizes: vec![1, 2, 3, 5, 8, 64],
             buffer_items: vec![0, 1, 2, 3, 5, 64],
@@ -223,7 +226,7 @@ pub fn config_strategy(p: &Profile) -> BoxedStrategy<Config> {
                 }
             };
             let flavour = if fl < p.async_pct { Flavour::Async } else { Flavour::Sync };
-            let tick: BoxedStrategy<Option<(i64, i64)>> = if p.periodic {
+            let tick: BoxedStrategy<Option<(i64, i64)>> = if p.periodic || (r / 7) % 100 < p.periodic_pct {
                 (
                     proptest::sample::select(vec![100_000_000i64, 250_000_000, 500_000_000, NS, 1_500_000_000, 2 * NS, 3 * NS]),
                     0i64..3 * NS,
@@ -459,6 +462,24 @@ pub fn clear_reuse_scenario(p: &Profile) -> BoxedStrategy<Case> {
                     v.extend(suffix);
                     Case { cfg, ops: v }
                 })
+        })
+        .boxed()
+}
+
+/// Template cases around the default insert-buffer size (32 * 1024): a buffer larger than the
+/// default, more than 32 Ki items buffered, then clear(): nothing buffered before the clear may
+/// be applied after it.
+pub fn big_buffer_clear_scenario(p: &Profile) -> BoxedStrategy<Case> {
+    let mut p2 = p.clone();
+    p2.modes = vec![Mode::Schedule];
+    p2.periodic = false;
+    p2.periodic_pct = 0;
+    (config_strategy(&p2), proptest::sample::select(vec![32_769usize, 40_000, 65_536]), proptest::sample::select(vec![32_768u32, 32_769, 33_000, 40_000]), 0usize..3, 0u64..8)
+        .prop_map(|(mut cfg, bs, n, pre, k)| {
+            cfg.buffer_size = bs;
+            cfg.flavour = if k % 3 == 0 { Flavour::Async } else { Flavour::Sync };
+            let ops = vec![Op::Bulk { n }, Op::Clear { pre }, Op::Drain { clear_first: false }, Op::Get { k }, Op::Get { k: k + 1 }];
+            Case { cfg, ops }
         })
         .boxed()
 }
